@@ -21,7 +21,7 @@ import (
 func init() {
 	reg.Register(&reg.Spec{ID: "C35",
 		Imports: "From verif Require Import lib.Base model.C35_Bal model.C35_Inline model.C35.",
-		Judge:   "C35.judge", Shard: 250, Run: run})
+		Judge:   "C35.judge", Shard: 1500, Run: run})
 }
 
 type desc struct {
@@ -256,7 +256,7 @@ func emitKernel(c *reg.Ctx, kind, coq, input, obs string, nontrivial bool) {
 		Class: "kernel-" + kind, Nontrivial: nontrivial})
 }
 
-var flankRunes = []rune{' ', '\n', '\t', ' ', ' ', 'a', 'Z', '7', 'é', '中', '.', '*', '_', '(', '"', '$', '+', '—', '“', '€', '©', '́'}
+var flankRunes = []rune{' ', '\n', ' ', 'a', '7', '中', '.', '*', '_', '$', '—', '€', '́'}
 
 func runKernels(c *reg.Ctx, n int) {
 	g := &mdgen.Gen{R: c.Rand}
